@@ -35,7 +35,7 @@ Spec == Init /\ [][Next]_vars
 TreeOut(s) == [j \in 1..Len(s.nodes) |->
                  <<s.nodes[j].name, s.nodes[j].par, s.nodes[j].role, s.nodes[j].args, s.nodes[j].blk>>]
 Out(s) == <<SetToSeq(s.devs), s.v, s.why, s.warg, s.bad, SetToSeq(s.irr),
-            IF s.v = "acc" THEN TreeOut(s) ELSE <<>>, SetToSeq(s.loaded)>>
+            IF s.v = "acc" THEN TreeOut(s) ELSE <<>>, SetToSeq(s.loaded), s.irrat>>
 
 Done == i = Len(Traces[tid].toks) \/ ~Live
 Emit == Done => PrintT(ToJson(<<Traces[tid].id, i, SetToSeq({Out(q) : q \in Advance(paths, EOFTok)})>>))
